@@ -45,33 +45,48 @@ Theorem C10_processor_untouched_modes_fixed : forall (R : cring) n m nR (UR : ma
 Proof. exact proc_untouched. Qed.
 Print Assumptions C10_processor_untouched_modes_fixed.
 
-(* plain component: [PERM; block], the light of left mode k enters input v = mapping k *)
-Theorem C10_component_wired_there : forall (R : cring) n m kw (Uc : mat R) k v i,
+(* plain component, the code as it is now (cfg_now: [PERM; block; PERM^-1] since 7bb2f795): wired there and back, and
+   untouched modes fixed, for ALL injective mappings (gaps included) *)
+Theorem C10_component_wired_there_and_back : forall (R : cring) n m kw (Uc : mat R) k v k' v',
+  injective_onto m -> lmin (keys m) + span m <= n -> v < kw -> v' < kw ->
+  In (k, v) (filled m) -> In (k', v') (filled m) ->
+  comp_seg (c_comp_inverse cfg_now) n (lmin (keys m)) (perm_vect m) kw Uc k' k = Uc v' v.
+Proof. exact comp_wiring_now. Qed.
+Print Assumptions C10_component_wired_there_and_back.
+
+Theorem C10_component_untouched_modes_fixed : forall (R : cring) n m kw (Uc : mat R) u j,
+  injective_onto m -> lmin (keys m) + span m <= n -> kw <= length m -> u < n -> j < n -> ~ In u (keys m) ->
+  comp_seg (c_comp_inverse cfg_now) n (lmin (keys m)) (perm_vect m) kw Uc u j = delta u j /\
+  comp_seg (c_comp_inverse cfg_now) n (lmin (keys m)) (perm_vect m) kw Uc j u = delta j u.
+Proof. exact comp_untouched_now. Qed.
+Print Assumptions C10_component_untouched_modes_fixed.
+
+(* ---- historical: the code before 7bb2f795 (cfg_old: [PERM; block], comp_seg false = comp_step) ---- *)
+Theorem C10_component_wired_there_old_code : forall (R : cring) n m kw (Uc : mat R) k v i,
   injective_onto m -> lmin (keys m) + span m <= n -> i < n -> In (k, v) (filled m) ->
-  comp_step n (lmin (keys m)) (perm_vect m) kw Uc i k = embed (lmin (keys m)) kw Uc i (lmin (keys m) + v).
+  comp_seg (c_comp_inverse cfg_old) n (lmin (keys m)) (perm_vect m) kw Uc i k
+  = embed (lmin (keys m)) kw Uc i (lmin (keys m) + v).
 Proof. exact comp_enters. Qed.
-Print Assumptions C10_component_wired_there.
+Print Assumptions C10_component_wired_there_old_code.
 
-(* "untouched modes are unaffected" for a plain component: FALSE of the code when the mapping has a gap
-   (Processor(3).add([0,2], X): the light of mode 1 leaves on mode 2) — full statement:
-     forall m n Uc u j, injective_onto m -> ~ In u (keys m) -> comp_step ... j u = delta j u  *)
-Theorem C10_component_untouched_refuted : forall R : cring, exists (m : nmap) (n u i : nat),
+(* "untouched modes are unaffected" was FALSE of the old code when the mapping has a gap
+   (Processor(3).add([0,2], X): the light of mode 1 left on mode 2) *)
+Theorem C10_component_untouched_refuted_old_code : forall R : cring, exists (m : nmap) (n u i : nat),
   injective_onto m /\ ~ In u (keys m) /\ u < n /\ i < n /\ i <> u /\
-  comp_step (R:=R) n (lmin (keys m)) (perm_vect m) (length m) mid i u = k1.
+  comp_seg (R:=R) (c_comp_inverse cfg_old) n (lmin (keys m)) (perm_vect m) (length m) mid i u = k1.
 Proof. exact comp_untouched_refuted. Qed.
-Print Assumptions C10_component_untouched_refuted.
+Print Assumptions C10_component_untouched_refuted_old_code.
 
-(* ... and true on the complement: mappings without gaps, in any order *)
-Theorem C10_component_untouched_partial : forall (R : cring) n m (Uc : mat R) u j,
+Theorem C10_component_untouched_gapfree_old_code : forall (R : cring) n m (Uc : mat R) u j,
   injective_onto m -> span m = length m -> lmin (keys m) + span m <= n -> u < n -> j < n -> ~ In u (keys m) ->
-  comp_step n (lmin (keys m)) (perm_vect m) (length m) Uc j u = delta j u /\
-  comp_step n (lmin (keys m)) (perm_vect m) (length m) Uc u j = delta u j.
+  comp_seg (c_comp_inverse cfg_old) n (lmin (keys m)) (perm_vect m) (length m) Uc j u = delta j u /\
+  comp_seg (c_comp_inverse cfg_old) n (lmin (keys m)) (perm_vect m) (length m) Uc u j = delta u j.
 Proof. exact comp_untouched_contiguous. Qed.
-Print Assumptions C10_component_untouched_partial.
+Print Assumptions C10_component_untouched_gapfree_old_code.
 
 (* ---- heralds and detectors of the added processor ---- *)
-Theorem C10_heralds_appended_in_order : forall (R : cring) tb (e : exp R) mp r keep e' seg,
-  add_proc tb e mp r keep = (e', true, seg) ->
+Theorem C10_heralds_appended_in_order : forall (R : cring) tb cf (e : exp R) mp r keep e' seg,
+  add_proc tb cf e mp r keep = (e', true, seg) ->
   exists m0 m',
     heralds_of (e_out e') = heralds_of (drop_ports keep e m0) ++
       map (fun p => (key_of m' (hd 0 (p_range p)), expected_of p)) (filter is_herald_port (e_out r)) /\
@@ -97,20 +112,26 @@ Theorem C10_postselect_reexpressed : forall mn pv p s nR, ps_bound nR p ->
 Proof. exact ps_right_eval. Qed.
 Print Assumptions C10_postselect_reexpressed.
 
-(* the code permutes with first = c_first and then shifts by c_first: FALSE in general — full statement:
-     forall mn pv p s, permok pv -> ps_eval (ps_code mn pv p) s = ps_eval (ps_right mn pv p) s *)
-Theorem C10_postselect_code_refuted : exists mn pv p s,
-  permok pv /\ ps_eval (ps_code mn pv p) s <> ps_eval (ps_right mn pv p) s.
-Proof. exact ps_code_refuted. Qed.
-Print Assumptions C10_postselect_code_refuted.
+(* the code as it is now (cfg_now: shift by c_first, then permute inside the span; c0ab6b50) computes exactly that
+   re-expression, for every mapping *)
+Theorem C10_postselect_code_reexpresses : forall mn pv p s nR, ps_bound nR p ->
+  ps_eval (ps_code (c_ps_shift_first cfg_now) mn pv p) s = ps_eval p (pullback (right_mode mn pv) nR s).
+Proof. exact ps_code_now_eval. Qed.
+Print Assumptions C10_postselect_code_reexpresses.
 
-(* ... and correct on the complement: segment starting on mode 0, or no PERM needed *)
-Theorem C10_postselect_code_partial_min0 : forall pv p, is_identity pv = false -> ps_code 0 pv p = ps_right 0 pv p.
-Proof. exact ps_code_min0. Qed.
-Print Assumptions C10_postselect_code_partial_min0.
-Theorem C10_postselect_code_partial_identity : forall mn pv p, is_identity pv = true -> ps_code mn pv p = ps_right mn pv p.
-Proof. exact ps_code_identity. Qed.
-Print Assumptions C10_postselect_code_partial_identity.
+(* historical: the code before c0ab6b50 permuted with first = c_first and then shifted by c_first — refuted *)
+Theorem C10_postselect_refuted_old_code : exists mn pv p s,
+  permok pv /\ ps_eval (ps_code (c_ps_shift_first cfg_old) mn pv p) s <> ps_eval (ps_right mn pv p) s.
+Proof. exact ps_code_old_refuted. Qed.
+Print Assumptions C10_postselect_refuted_old_code.
+Theorem C10_postselect_min0_old_code : forall pv p, is_identity pv = false ->
+  ps_code (c_ps_shift_first cfg_old) 0 pv p = ps_right 0 pv p.
+Proof. exact ps_code_old_min0. Qed.
+Print Assumptions C10_postselect_min0_old_code.
+Theorem C10_postselect_identity_old_code : forall mn pv p, is_identity pv = true ->
+  ps_code (c_ps_shift_first cfg_old) mn pv p = ps_right mn pv p.
+Proof. exact ps_code_old_identity. Qed.
+Print Assumptions C10_postselect_identity_old_code.
 
 (* ---- illegal mappings ---- *)
 Theorem C10_consistency_check_exact : forall n conn m,
